@@ -184,3 +184,108 @@ Definition cf3_objs (x : list R) : list R :=
 Definition cf3_constr (x : list R) : list R :=
   let f1 := nth 0 (cf3_objs x) 0 in let f2 := nth 1 (cf3_objs x) 0 in
   [f2 + f1 ^ 2 - 1 * sin (2 * PI * (f1 ^ 2 - f2 + 1)) - 1].
+
+(* ------------------------------------------------------------------ UF8-10, CF8-10 (CEC 2009; n variables, 3 objectives)
+   J1 = { j : 3 <= j <= n, j - 1 multiple of 3 }, J2 = { j - 2 multiple of 3 }, J3 = { j multiple of 3 }; i.e. J_r = { j mod 3 = r mod 3 }.
+   With j = t + 3 (t = 0 .. n-3): sumK r y n = sum over those t with (t+3) mod 3 = r of y (t+3); cntK r n the cardinality. *)
+Definition sumK (r : nat) (y : nat -> R) (n : nat) : R :=
+  big_sum (fun t => if Nat.eqb ((t + 3) mod 3) r then y (t + 3)%nat else 0) (n - 2).
+Definition cntK (r : nat) (n : nat) : R :=
+  big_sum (fun t => if Nat.eqb ((t + 3) mod 3) r then 1 else 0) (n - 2).
+(* y_j = x_j - 2 x_2 sin(2 pi x_1 + j pi / n) *)
+Definition uf8_y (x : list R) (j : nat) : R := X x (j - 1) - 2 * X x 1 * sin (2 * PI * X x 0 + INR j * PI / INR (length x)).
+Definition cec3_tail (x : list R) (h : R -> R) (r : nat) : R := 2 / cntK r (length x) * sumK r (fun j => h (uf8_y x j)) (length x).
+(* UF8 (= objectives of CF8, CF9) *)
+Definition uf8_ref (x : list R) : list R :=
+  [cos (X x 0 * PI / 2) * cos (X x 1 * PI / 2) + cec3_tail x (fun t => t ^ 2) 1;
+   cos (X x 0 * PI / 2) * sin (X x 1 * PI / 2) + cec3_tail x (fun t => t ^ 2) 2;
+   sin (X x 0 * PI / 2) + cec3_tail x (fun t => t ^ 2) 0].
+(* UF9: eps = 0.1 *)
+Definition uf9_ref (x : list R) : list R :=
+  let e := Rmax 0 ((1 + 1 / 10) * (1 - 4 * (2 * X x 0 - 1) ^ 2)) in
+  [1 / 2 * (e + 2 * X x 0) * X x 1 + cec3_tail x (fun t => t ^ 2) 1;
+   1 / 2 * (e - 2 * X x 0 + 2) * X x 1 + cec3_tail x (fun t => t ^ 2) 2;
+   1 - X x 1 + cec3_tail x (fun t => t ^ 2) 0].
+(* UF10 (= objectives of CF10): h(t) = 4 t^2 - cos(8 pi t) + 1 *)
+Definition uf10_h (t : R) : R := 4 * t ^ 2 - cos (8 * PI * t) + 1.
+Definition uf10_ref (x : list R) : list R :=
+  [cos (X x 0 * PI / 2) * cos (X x 1 * PI / 2) + cec3_tail x uf10_h 1;
+   cos (X x 0 * PI / 2) * sin (X x 1 * PI / 2) + cec3_tail x uf10_h 2;
+   sin (X x 0 * PI / 2) + cec3_tail x uf10_h 0].
+(* CF8 (N = 2, a = 4, with |.|), CF9 (a = 3), CF10 (a = 1): (f1^2 + f2^2)/(1 - f3^2) - a [|]sin(N pi ((f1^2 - f2^2)/(1 - f3^2) + 1))[|] - 1 >= 0 *)
+Definition cf8910_q (f : list R) : R := (nth 0 f 0 ^ 2 - nth 1 f 0 ^ 2) / (1 - nth 2 f 0 ^ 2).
+Definition cf8_constr (x : list R) : list R :=
+  let f := uf8_ref x in [(nth 0 f 0 ^ 2 + nth 1 f 0 ^ 2) / (1 - nth 2 f 0 ^ 2) - 4 * Rabs (sin (2 * PI * (cf8910_q f + 1))) - 1].
+Definition cf9_constr (x : list R) : list R :=
+  let f := uf8_ref x in [(nth 0 f 0 ^ 2 + nth 1 f 0 ^ 2) / (1 - nth 2 f 0 ^ 2) - 3 * sin (2 * PI * (cf8910_q f + 1)) - 1].
+Definition cf10_constr (x : list R) : list R :=
+  let f := uf10_ref x in [(nth 0 f 0 ^ 2 + nth 1 f 0 ^ 2) / (1 - nth 2 f 0 ^ 2) - 1 * sin (2 * PI * (cf8910_q f + 1)) - 1].
+
+(* ------------------------------------------------------------------ CF2, CF4-CF7 (CEC 2009; n variables, 2 objectives) *)
+Definition cf_sgn (u : R) : R := if Rlt_dec 0 u then 1 else if Rlt_dec u 0 then -1 else 0.
+(* t / (1 + e^{4|t|}) *)
+Definition cf_squash (t : R) : R := t / (1 + exp (4 * Rabs t)).
+(* h_2(t) = |t| if t < 3/2 (1 - sqrt 2 / 2), 0.125 + (t - 1)^2 otherwise   [CF4, CF5] *)
+Definition cf_h2 (t : R) : R := if Rlt_dec t (3 / 2 * (1 - sqrt 2 / 2)) then Rabs t else 1 / 8 + (t - 1) ^ 2.
+(* y_j with amplitude a: J1 (odd j): x_j - a cos(6 pi x_1 + j pi/n);  J2 (even j): x_j - a sin(6 pi x_1 + j pi/n) *)
+Definition cf_ycs (a : R) (x : list R) (j : nat) : R :=
+  let ph := 6 * PI * X x 0 + INR j * PI / INR (length x) in
+  X x (j - 1) - a * (if Nat.odd j then cos ph else sin ph).
+(* CF2: N = 2, a = 1: J1 uses sin, J2 uses cos *)
+Definition cf2_y (x : list R) (j : nat) : R :=
+  let ph := 6 * PI * X x 0 + INR j * PI / INR (length x) in
+  X x (j - 1) - (if Nat.odd j then sin ph else cos ph).
+Definition cf2_objs (x : list R) : list R :=
+  let n := length x in
+  [X x 0 + 2 / cntJ true n * sumJ true (fun j => cf2_y x j ^ 2) n; 1 - sqrt (X x 0) + 2 / cntJ false n * sumJ false (fun j => cf2_y x j ^ 2) n].
+Definition cf2_constr (x : list R) : list R :=
+  let f1 := nth 0 (cf2_objs x) 0 in let f2 := nth 1 (cf2_objs x) 0 in
+  [cf_squash (f2 + sqrt f1 - 1 * sin (2 * PI * (sqrt f1 - f2 + 1)) - 1)].
+(* CF4: y_j as UF1; h_2 as above, h_j(t) = t^2 otherwise; f1 = x1 + sum_{J1} h_j(y_j), f2 = 1 - x1 + sum_{J2} h_j(y_j) *)
+Definition cf4_objs (x : list R) : list R :=
+  let n := length x in
+  [X x 0 + sumJ true (fun j => uf_y1 x j ^ 2) n;
+   1 - X x 0 + sumJ false (fun j => if Nat.eqb j 2 then cf_h2 (uf_y1 x j) else uf_y1 x j ^ 2) n].
+Definition cf4_constr (x : list R) : list R :=
+  [cf_squash (X x 1 - sin (6 * PI * X x 0 + 2 * PI / INR (length x)) - 1 / 2 * X x 0 + 1 / 4)].
+(* CF5: y_j with amplitude 0.8 x_1; h_2 as above, h_j(t) = 2 t^2 - cos(4 pi t) + 1 otherwise *)
+Definition cf5_objs (x : list R) : list R :=
+  let n := length x in let y := cf_ycs (4 / 5 * X x 0) x in
+  [X x 0 + sumJ true (fun j => uf5_h (y j)) n;
+   1 - X x 0 + sumJ false (fun j => if Nat.eqb j 2 then cf_h2 (y j) else uf5_h (y j)) n].
+Definition cf5_constr (x : list R) : list R :=
+  [X x 1 - 4 / 5 * X x 0 * sin (6 * PI * X x 0 + 2 * PI / INR (length x)) - 1 / 2 * X x 0 + 1 / 4].
+(* CF6 / CF7 constraints: x_2 - a sin(6 pi x_1 + 2 pi/n) - sgn(u) sqrt|u|,  u = 0.5 (1 - x_1) - (1 - x_1)^2;
+                          x_4 - a sin(6 pi x_1 + 4 pi/n) - sgn(w) sqrt|w|,  w = 0.25 sqrt(1 - x_1) - 0.5 (1 - x_1) *)
+Definition cf67_constr (a : R) (x : list R) : list R :=
+  let u := 1 / 2 * (1 - X x 0) - (1 - X x 0) ^ 2 in
+  let w := 1 / 4 * sqrt (1 - X x 0) - 1 / 2 * (1 - X x 0) in
+  [X x 1 - a * sin (6 * PI * X x 0 + 2 * PI / INR (length x)) - cf_sgn u * sqrt (Rabs u);
+   X x 3 - a * sin (6 * PI * X x 0 + 4 * PI / INR (length x)) - cf_sgn w * sqrt (Rabs w)].
+(* CF6: f1 = x1 + sum_{J1} y_j^2, f2 = (1 - x1)^2 + sum_{J2} y_j^2, amplitude 0.8 x_1 *)
+Definition cf6_objs (x : list R) : list R :=
+  let n := length x in let y := cf_ycs (4 / 5 * X x 0) x in
+  [X x 0 + sumJ true (fun j => y j ^ 2) n; (1 - X x 0) ^ 2 + sumJ false (fun j => y j ^ 2) n].
+(* CF7: amplitude 1; h_2 = h_4 = t^2, h_j(t) = 2 t^2 - cos(4 pi t) + 1 otherwise *)
+Definition cf7_objs (x : list R) : list R :=
+  let n := length x in let y := cf_ycs 1 x in
+  [X x 0 + sumJ true (fun j => uf5_h (y j)) n;
+   (1 - X x 0) ^ 2 + sumJ false (fun j => if orb (Nat.eqb j 2) (Nat.eqb j 4) then y j ^ 2 else uf5_h (y j)) n].
+
+(* ------------------------------------------------------------------ WFG4, WFG5 as whole problems (Huband et al., with Platypus' k = M - 1, l = n - k)
+   y_i = z_i / (2i);  t1: y'_i = s_multi(y_i, 30, 10, 0.35)  [WFG4]  resp.  s_decept(y_i, 0.35, 0.001, 0.05)  [WFG5];
+   t2: t_i = r_sum of group i = y'_i (one position parameter per group, weight 1), t_M = mean(y'_{k+1..n});  then the concave shape. *)
+Definition wfg_norm (z : list R) : list R := map (fun i => X z i / (2 * INR (S i))) (seq 0 (length z)).
+Definition wfg_s_multi (y A B C : R) : R :=
+  let t := Rabs (y - C) / (2 * (IZR (Int_part (C - y)) + C)) in
+  (1 + cos ((4 * A + 2) * PI * (1 / 2 - t)) + 4 * B * t ^ 2) / (B + 2).
+Definition wfg_s_decept (y A B C : R) : R :=
+  1 + (Rabs (y - A) - B) *
+      (IZR (Int_part (y - A + B)) * (1 - C + (A - B) / B) / (A - B)
+       + IZR (Int_part (A + B - y)) * (1 - C + (1 - A - B) / B) / (1 - A - B) + 1 / B).
+Definition wfg_mean (l : list R) : R := big_sum (fun i => X l i) (length l) / INR (length l).
+Definition wfg_reduce_k1 (M : nat) (y : list R) : list R := firstn (M - 1) y ++ [wfg_mean (skipn (M - 1) y)].
+Definition wfg4_ref (M : nat) (z : list R) : list R :=
+  wfg4_shape_ref (wfg_reduce_k1 M (map (fun v => wfg_s_multi v 30 10 (7 / 20)) (wfg_norm z))).
+Definition wfg5_ref (M : nat) (z : list R) : list R :=
+  wfg4_shape_ref (wfg_reduce_k1 M (map (fun v => wfg_s_decept v (7 / 20) (1 / 1000) (1 / 20)) (wfg_norm z))).
